@@ -13,8 +13,10 @@ import (
 	"math/big"
 	"reflect"
 	"runtime"
+	"sort"
 	"strings"
 	"sync"
+	"testing"
 	"time"
 
 	"pgregory.net/rapid"
@@ -625,7 +627,36 @@ func (in *inv) step(op *Op) {
 				done = true
 			}
 		}
-		r.rec.Emit("sm.begin", F{"inv": in.id, "n": len(op.Actions), "hasinv": op.Inv != nil})
+		names := []string{}
+		for name := range op.Actions {
+			names = append(names, name)
+		}
+		sort.Strings(names)
+		if op.Val == "struct" {
+			// the state machine as a struct: rapid.StateMachineActions collects its exported methods of the form Name(*T) / Name(TB), Check is the invariant.
+			// The struct also has methods that are NOT actions (unexported, other signatures); they report themselves if they are ever called.
+			m := &smStruct{fns: actions, rec: r.rec, inv: in.id}
+			for _, k := range []string{"ActA", "ActB", "ActC"} {
+				if actions[k] == nil {
+					k := k
+					actions[k] = func(t2 *rapid.T) { // a method without a scripted body: skips at once
+						r.rec.Emit("draw", F{"inv": in.id, "label": "action", "val": fmtVal(k), "dval": fmtVal(k), "gen": "SampledFrom(actions)"})
+						r.rec.Emit("sm.action.begin", F{"inv": in.id, "name": k})
+						in.last = "skip"
+						defer func() { r.rec.Emit("sm.action.end", F{"inv": in.id, "name": k, "ret": false, "last": "skip"}) }()
+						t2.Skip("not scripted")
+					}
+				}
+			}
+			names = []string{"ActA", "ActB", "ActC"}
+			r.rec.Emit("sm.begin", F{"inv": in.id, "n": 3, "hasinv": true, "actions": names, "struct": true})
+			smdone := false
+			defer func() { r.rec.Emit("sm.end", F{"inv": in.id, "ret": smdone}) }()
+			t.Repeat(rapid.StateMachineActions(m))
+			smdone = true
+			break
+		}
+		r.rec.Emit("sm.begin", F{"inv": in.id, "n": len(op.Actions), "hasinv": op.Inv != nil, "actions": names})
 		smdone := false
 		defer func() { r.rec.Emit("sm.end", F{"inv": in.id, "ret": smdone}) }()
 		t.Repeat(actions)
@@ -638,6 +669,36 @@ func (in *inv) step(op *Op) {
 	default:
 		panic("unknown op " + op.Op)
 	}
+}
+
+// smStruct is a state machine given as a struct (see the "repeat" op with val "struct").
+type smStruct struct {
+	fns map[string]func(*rapid.T)
+	rec *Recorder
+	inv int
+}
+
+func (m *smStruct) ActA(t *rapid.T) { m.fns["ActA"](t) }
+func (m *smStruct) ActB(t *rapid.T) { m.fns["ActB"](t) }
+func (m *smStruct) ActC(t rapid.TB) { m.fns["ActC"](t.(*rapid.T)) } // the documented TB form of an action
+func (m *smStruct) Check(t *rapid.T) {
+	if f := m.fns[""]; f != nil {
+		f(t)
+		return
+	}
+	m.rec.Emit("sm.inv.begin", F{"inv": m.inv})
+	m.rec.Emit("sm.inv.end", F{"inv": m.inv, "ret": true})
+}
+
+// not actions: wrong signatures, and an unexported method
+func (m *smStruct) Reset()                 { m.notAnAction("Reset") }
+func (m *smStruct) Size(t *rapid.T) int    { m.notAnAction("Size"); return 0 }
+func (m *smStruct) With(t *rapid.T, k int) { m.notAnAction("With") }
+func (m *smStruct) hidden(t *rapid.T)      { m.notAnAction("hidden") }
+func (m *smStruct) Plain(t *testing.T)     { m.notAnAction("Plain") }
+func (m *smStruct) notAnAction(name string) {
+	m.rec.Emit("sm.action.begin", F{"inv": m.inv, "name": name})
+	m.rec.Emit("sm.action.end", F{"inv": m.inv, "name": name, "ret": true, "last": ""})
 }
 
 // customShared is a Custom generator function that draws as many values as the shared variable says -- none at all for 0,
